@@ -1358,7 +1358,7 @@ method or constructor of some type."""
             func.instance_parameter = func.parameters.pop(0)
             self._namespace.float(func)
 
-            if not func.is_method:
+            if not func.is_method or subsymbol.startswith(uscored_prefix + '_'):
                 subsym_idx = func.symbol.find(subsymbol)
                 func.name = func.symbol[(subsym_idx + len(uscored_prefix) + 1):]
                 func.is_method = True
